@@ -172,7 +172,10 @@ fn probes(rng: &mut Rng, exp: &Map, max_code: u32, n_random: usize) -> Vec<u32> 
 
 fn valid_code_fmt2(l: &Layout2, c: u32) -> bool {
     if c < 0x100 {
-        !l.double.contains_key(&(c as u8))
+        // a one-byte code is a character unless the byte is a lead byte; a lone lead byte is not a
+        // character of the encoding and therefore unmapped (glyph 0; FreeType agrees) - judged too
+        let _ = l;
+        true
     } else if c <= 0xFFFF {
         l.double.contains_key(&((c >> 8) as u8))
     } else {
@@ -192,7 +195,15 @@ impl C06 {
         };
         let owned = sub.to_owned();
         let nrand = if cx.quick() { 200 } else { 2000 };
-        for c in probes(rng, &g.expected, g.max_code, nrand) {
+        let mut probe_list = probes(rng, &g.expected, g.max_code, nrand);
+        if let Some(l) = &g.valid2 {
+            // lone lead bytes (looked up as one-byte codes) must be unmapped
+            probe_list.extend(l.double.keys().map(|&b| b as u32));
+            if !l.double.is_empty() {
+                cx.class("fmt2:lone-lead-byte-probed");
+            }
+        }
+        for c in probe_list {
             if let Some(l) = &g.valid2 {
                 if !valid_code_fmt2(l, c) {
                     continue;
